@@ -17,7 +17,8 @@ Reply `= <stepreply> | <stepreply> | …` with
 exactly as `exec/src/bin/c18.rs` (see there).  The model has no other objects and no global generator, so its
 `R` stream is by construction its `D` stream.
 
-  bulk <kind> <seed> <rows> <cols> <arg>*     (`sample_n(rows)` if cols = 0, else `sample_matrix(rows, cols)`)
+  bulk <kind> <seed> <rows> <cols> new <arg>* | default     (`sample_n(rows)` if cols = 0, else `sample_matrix(rows, cols)`;
+                                                `default`: on `X::default().clone()`, reply extended by ` T <digest> <state>` of the twin)
 Reply `= n <digest> <first 4> <last 4> <state> A <digest> <state> <digest> <state>`: the model has one sequential
 `sampleN` (n successive `sample()` calls threading the generator state), so the repeated bulk call and the n single
 calls are by construction the same value; the Rust executor really runs the three variants.
@@ -59,10 +60,20 @@ def pArgs : List Ty → P (List (Arg Float))
   | [] => pure []
   | t :: ts => do let a ← pArg t; let as ← pArgs ts; pure (a :: as)
 
-/-- A step as parsed: the operation, or "first constructor call". -/
-def pOp (sig : List Ty) : P (Op Float) := do
+/-- A step of a session: a call of the `Op` language, `X::default()` (modelled as `new(defaultArgs)`), or a
+`Clone` / `Copy` of the object (the identity on records). -/
+inductive SStep where
+  | op (o : Op Float)
+  | dflt
+  | clone
+
+def pOp (sig : List Ty) : P SStep := do
   let t ← tok
   match t with
+  | "default" => pure .dflt
+  | "clone" => pure .clone
+  | "copy" => pure .clone
+  | _ => SStep.op <$> (match t with
   | "new" => do let as ← pArgs sig; pure (.new as)
   | "set" => do
     let i ← pNat
@@ -70,7 +81,7 @@ def pOp (sig : List Ty) : P (Op Float) := do
     | none => failure
     | some ty => do let a ← pArg ty; pure (.set i a)
   | "upd" => do let n ← pNat; let ps ← pMany pFloat n; pure (.update ps)
-  | _ => failure
+  | _ => failure)
 
 def showArg : Arg Float → String
   | .real x => showFloat x
@@ -116,15 +127,20 @@ def runSteps (k : Kind) (sig : List Ty) (probes : List Probe) (seed : UInt64) :
     Nat → Option (Dist Float) → List String → P (List String)
   | 0, _, acc => pure acc.reverse
   | n + 1, obj, acc => do
-    let op ← pOp sig
-    let c : String := match obj, op with
-      | some d, .set i a => showBool (newD k (d.params.set i a)).isSome
-      | some _, .update ps =>
-        (match castArgs k ps with
-         | some args => showBool (newD (α := Float) k args).isSome
-         | none => "-")
-      | _, _ => "-"
-    let (obj, p) := sessionStep k obj op
+    let sstep ← pOp sig
+    let (c, obj, p) : String × Option (Dist Float) × Bool := match sstep with
+      | .clone => ("-", obj, false)
+      | .dflt => let r := sessionStep k obj (.new (defaultArgs k)); ("-", r.1, r.2)
+      | .op op =>
+        let c : String := match obj, op with
+          | some d, .set i a => showBool (newD k (d.params.set i a)).isSome
+          | some _, .update ps =>
+            (match castArgs k ps with
+             | some args => showBool (newD (α := Float) k args).isSome
+             | none => "-")
+          | _, _ => "-"
+        let r := sessionStep k obj op
+        (c, r.1, r.2)
     let body := match obj with
       | none => "-"
       | some d => observe d probes seed
@@ -147,8 +163,9 @@ def c18Bulk (k : Kind) (sig : List Ty) (rest : List String) : String :=
   withArgs (do
     let seed ← pU64
     let rows ← pNat; let cols ← pNat
-    let args ← pArgs sig
-    pure (seed, rows, cols, args)) rest fun (seed, rows, cols, args) =>
+    let mode ← tok
+    let args ← (if mode == "default" then pure (defaultArgs k) else if mode == "new" then pArgs sig else failure)
+    pure (seed, rows, cols, mode, args)) rest fun (seed, rows, cols, mode, args) =>
     match newD k args with
     | none => panicked
     | some d =>
@@ -161,7 +178,16 @@ def c18Bulk (k : Kind) (sig : List Ty) (rest : List String) : String :=
         let first := (xs.extract 0 kk).toList
         let last := (xs.extract (xs.size - kk) xs.size).toList
         let st := toString g.s.toNat
-        ok s!"{xs.size} {h} {showFloats first} {showFloats last} {st} A {h} {st} {h} {st}"
+        let digestOf (o : Dist Float) : String :=
+          match bulkLoop o n (Rng.ofSeed seed) (Array.mkEmpty n) with
+          | none => "X"
+          | some (ys, g') => s!"{natToHex16 (ys.foldl fnvStep 0xcbf29ce484222325).toNat} {g'.s.toNat}"
+        let twin := if mode == "default" then
+            (match fresh d with
+             | none => " T X"
+             | some tw => " T " ++ digestOf tw)
+          else ""
+        ok s!"{xs.size} {h} {showFloats first} {showFloats last} {st} A {h} {st} {h} {st}{twin}"
 
 def c18Step (args : List String) : String :=
   match args with
